@@ -284,16 +284,18 @@ def carry_case():
   return st.fixed_dictionaries({
       'mods': st.lists(st.tuples(st.integers(-3, 3), st.booleans()),
                        min_size=1, max_size=3),
-      'container': st.sampled_from(['tuple', 'list', 'dict', 'bare']),
+      # 'var': a bare Variable is (part of) the carry
+      'container': st.sampled_from(['tuple', 'list', 'dict', 'bare', 'var',
+                                    'tuple+var']),
       'with_array': st.booleans(), 'n': st.integers(1, 4),
       'reverse': st.booleans(), 'seed': st.integers(0, 2**16)})
 
 
 @clause('scan_module_carry', strategy=carry_case, quick=120, thorough=5000,
         quick_shards=8, thorough_shards=16, shrink=False,
-        rule='nnx.scan whose Carry argument is a module or a tuple / list / '
-        'dict of 1-3 modules of different structure (optionally with an '
-        'array): every step reads and updates each carried module; after the '
+        rule='nnx.scan whose Carry argument is a module, a bare Variable, or a '
+        'tuple / list / dict of 1-3 modules of different structure '
+        '(optionally with an array and a bare Variable): every step reads and updates each carried module; after the '
         'scan each of the caller\'s modules holds the state the Python loop '
         'leaves in its twin, the returned carry has the same structure and '
         'values, and the stacked outputs match; non-trivial = >=2 carried '
@@ -304,10 +306,17 @@ def scan_module_carry(case, ctx):
   xs = rng.integers(-3, 4, size=(n,)).astype(np.float32)
   kind = case['container']
   specs = list(case['mods']) if kind != 'bare' else list(case['mods'])[:1]
+  with_var = kind in ('var', 'tuple+var')
+  kind = {'var': 'barevar', 'tuple+var': 'tuple'}.get(kind, kind)
   def build():
     ms = [CarryMod(float(sc), ex) for sc, ex in specs]
     arr = jnp.asarray(1.0, jnp.float32) if case['with_array'] and \
-        kind != 'bare' else None
+        kind not in ('bare', 'barevar') else None
+    if kind == 'barevar':
+      v = Count(jnp.asarray(float(specs[0][0]), jnp.float32))
+      return [v], v
+    if with_var:
+      ms = ms + [Count(jnp.asarray(0.5, jnp.float32))]
     if kind == 'bare':
       return ms, ms[0]
     items = list(ms) + ([arr] if arr is not None else [])
@@ -317,7 +326,7 @@ def scan_module_carry(case, ctx):
       return ms, list(items)
     return ms, {f'k{i}': it for i, it in enumerate(items)}
   def elems(c):
-    if kind == 'bare':
+    if kind in ('bare', 'barevar'):
       return [c]
     return list(c.values()) if isinstance(c, dict) else list(c)
   def step(carry, x):
@@ -329,10 +338,14 @@ def scan_module_carry(case, ctx):
         if hasattr(e, 'steps'):
           e.steps.value = e.steps.value + 1.0
         y = y + e.acc.value
+      elif isinstance(e, nnx.Variable):
+        e.value = e.value * 0.5 + x + i
+        y = y + e.value
     new = []
     for e in es:
-      new.append(e if isinstance(e, CarryMod) else e * 0.5 + y)
-    if kind == 'bare':
+      new.append(e if isinstance(e, (CarryMod, nnx.Variable))
+                 else e * 0.5 + y)
+    if kind in ('bare', 'barevar'):
       out = new[0]
     elif kind == 'tuple':
       out = tuple(new)
@@ -356,6 +369,8 @@ def scan_module_carry(case, ctx):
   require(close(y_s, np.stack(ys)), lambda: f'stacked outputs '
           f'{np.asarray(y_s)} differ from the loop {np.stack(ys)}')
   def st_of(m):
+    if isinstance(m, nnx.Variable):
+      return {'value': float(np.asarray(m.value))}
     return {k: float(np.asarray(getattr(m, k).value))
             for k in ('scale', 'acc', 'steps') if hasattr(m, k)}
   for i, (m, mr) in enumerate(zip(ms, ms_ref)):
@@ -367,10 +382,14 @@ def scan_module_carry(case, ctx):
           f'carry is a {type(c_s).__name__} of {len(es)}, loop '
           f'{type(c_ref).__name__} of {len(er)}')
   for i, (a, b) in enumerate(zip(es, er)):
-    if isinstance(b, CarryMod):
-      require(isinstance(a, CarryMod) and st_of(a) == st_of(b), lambda: 
+    if isinstance(b, (CarryMod, nnx.Variable)):
+      require(type(a) is type(b) and st_of(a) == st_of(b), lambda: 
               f'returned carry element #{i} holds '
-              f'{st_of(a) if isinstance(a, CarryMod) else a}, loop {st_of(b)}')
+              f'{st_of(a) if isinstance(a, (CarryMod, nnx.Variable)) else a}'
+              f', loop {st_of(b)}')
+      require(a is ms[i], lambda: f'returned carry element #{i} is not the '
+              'caller\'s own object (the Python loop hands back the very '
+              'object it was given)')
     else:
       require(close(a, b), f'returned carry array #{i} differs from the loop')
   ctx.note(labels=[kind, f'mods{len(specs)}', f'n{n}',
